@@ -34,8 +34,9 @@ def budget_stage(res, tier):
     path = tmp(f"budget_{tier}.ndjson")
     with open(path, "w") as fh:
         for r in rows:
-            fh.write(json.dumps({"d": r["d"], "total": r["total"], "delta": r["delta"]}) + "\n")
-    cfg = vlib.write_cfg(tmp("obsbudget.cfg"), None, {}, invariants=["C07_ObservedFits"],
+            fh.write(json.dumps({"d": r["d"], "total": r["total"], "delta": r["delta"],
+                                 "carried": r["carried"], "sender": r["sender"]}) + "\n")
+    cfg = vlib.write_cfg(tmp("obsbudget.cfg"), None, {}, invariants=["C07_ObservedFits", "C07_ObservedTail"],
                          init_next=("ObsInit", "ObsNext"))
     # write_cfg emits an empty CONSTANTS section header; TLC accepts it
     r, text = vlib.run_tlc("ObserveBudget.tla", cfg, workers=1, timeout=600,
@@ -49,6 +50,12 @@ def budget_stage(res, tier):
             res.violation({"kind": "budget-sweep", "row": x},
                           f"C07_ObservedFits fails: a real SYN-ACK is {x['total']} bytes "
                           f"(own digest {x['d']} bytes, stream {x['delta']} bytes)")
+    elif re.search(r"Invariant C07_ObservedTail is violated", text):
+        bad = [x for x in rows if x["carried"] != x["sender"][:len(x["carried"])]]
+        for x in bad[:3]:
+            res.violation({"kind": "budget-sweep", "row": x},
+                          f"C07_ObservedTail fails: the reply carries versions {x['carried']} of a member whose "
+                          f"stale entries are {x['sender']} (an entry of {x['vlen']} bytes did not fit)")
     elif "Error:" in text:
         raise vlib.ToolError("ObserveBudget failed: " + text[-600:])
     os.remove(path)
